@@ -19,7 +19,7 @@ ASSUMPTIONS = [
     "isomorphism is up to state renumbering; Shift/Reduce are normalised (the standalone module encodes them as 0/1); "
     "errors are compared as accept/reject only",
 ]
-SHARDS = {"quick": 2, "thorough": 14}
+SHARDS = {"quick": 4, "thorough": 14}
 
 
 def norm_pattern(p):
@@ -156,7 +156,7 @@ def run(ctx):
         stab.states[sid] = rd
         total_entries += len(d)
     gen = textgen.TextGen(ctx.rng)
-    n = ctx.scale(40000, 5_000_000)
+    n = ctx.scale(100000, 5_000_000)
     accepted = rejected = 0
     for i in range(n):
         text, kind = gen.any_text()
